@@ -149,7 +149,7 @@ def option_unwrap_or(ex, st, callee, args, m):
     return Fork([(o.disc == 1, lambda ex, st, a: a[0].fields['Some'][0]), (o.disc != 1, lambda ex, st, a: a[1])])
 
 
-@model(r'^core::num::<impl (%s)>::(saturating_sub|saturating_add|wrapping_add|wrapping_sub|wrapping_mul|wrapping_neg|abs|min|max|wrapping_abs|unsigned_abs|abs_diff|is_power_of_two)$' % _PRIM)
+@model(r'^core::num::<impl (%s)>::(saturating_sub|saturating_add|wrapping_add|wrapping_sub|wrapping_mul|wrapping_neg|wrapping_div|wrapping_rem|abs|min|max|wrapping_abs|unsigned_abs|abs_diff|is_power_of_two)$' % _PRIM)
 def num_misc(ex, st, callee, args, m):
     """integer helper methods (saturating/wrapping arithmetic, abs with its overflow panic)"""
     t, f = m.group(1), m.group(2); sg = t in SIGNED
@@ -160,6 +160,12 @@ def num_misc(ex, st, callee, args, m):
     if f == 'wrapping_mul': return a * b
     if f == 'wrapping_neg': return -a
     if f == 'wrapping_abs': return If(a < 0, -a, a)
+    if f in ('wrapping_div', 'wrapping_rem'):
+        nz = b != 0
+        st.path.oblige('no panic: %s by zero' % f, nz, callee); st.path.assume(nz)
+        if not sg: return UDiv(a, b) if f == 'wrapping_div' else URem(a, b)
+        mn = BitVecVal(-(2 ** (w - 1)), w); ovf = And(a == mn, b == BitVecVal(-1, w))
+        return If(ovf, mn if f == 'wrapping_div' else BitVecVal(0, w), (a / b) if f == 'wrapping_div' else SRem(a, b))
     if f == 'saturating_sub' and not sg: return If(ULT(a, b), BitVecVal(0, w), a - b)
     if f == 'saturating_add' and not sg: return If(BVAddNoOverflow(a, b, False), a + b, BitVecVal(2 ** w - 1, w))
     if f == 'saturating_add' and sg:
